@@ -98,12 +98,34 @@ fn burn(s: &mut dyn Storage, from: &str, amount: u128) -> StdResult<()> {
     Ok(())
 }
 
+/// migrate: `{"decimals": n}` sets the reported precision (any contract can be migrated to this code: the token is then a
+/// live cw20 with empty balances); `{"dead": true}` freezes the token (every execute and query fails) until `{"dead": false}`.
+pub fn migrate(deps: DepsMut, _env: Env, msg: serde_json::Value) -> StdResult<Response> {
+    if let Some(d) = msg.get("decimals").and_then(|x| x.as_u64()) {
+        deps.storage.set(b"lm/dec", &[d as u8]);
+    }
+    match msg.get("dead").and_then(|x| x.as_bool()) {
+        Some(true) => deps.storage.set(b"lm/dead", &[1]),
+        Some(false) => deps.storage.remove(b"lm/dead"),
+        None => {}
+    }
+    Ok(Response::default())
+}
+
+fn alive(s: &dyn Storage) -> StdResult<()> {
+    if s.get(b"lm/dead").is_some() {
+        return Err(err("token is frozen"));
+    }
+    Ok(())
+}
+
 pub fn execute(
     deps: DepsMut,
     _env: Env,
     info: MessageInfo,
     msg: Cw20ExecuteMsg,
 ) -> StdResult<Response> {
+    alive(deps.storage)?;
     let me = info.sender.to_string();
     match msg {
         Cw20ExecuteMsg::Transfer { recipient, amount } => {
@@ -197,6 +219,7 @@ pub fn execute(
 }
 
 pub fn query(deps: Deps, _env: Env, msg: Cw20QueryMsg) -> StdResult<Binary> {
+    alive(deps.storage)?;
     match msg {
         Cw20QueryMsg::Balance { address } => {
             let a = deps.api.addr_validate(&address)?;
